@@ -20,7 +20,8 @@ ID = "C03"
 LEVEL = "exploration"
 
 # (directory under WD, name). The first two names differ only in Unicode normal form (NFC / NFD of "xé"): on Linux they are two files
-FILES = (("", "x\u00e9"), ("", "xe\u0301"), ("sub", "z"))
+# ... and the third file has the first one's name in another directory (the same raw relative spelling from two working directories)
+FILES = (("", "x\u00e9"), ("", "xe\u0301"), ("sub", "x\u00e9"))
 NSPELL = 9
 
 
